@@ -33,6 +33,7 @@ Qed.
 
 (* ---- struct fields --------------------------------------------------------------------------------------- *)
 Section Fields.
+Variable nm : string.
 Variable m : gty -> gval -> res json.
 Variable u : field -> json -> res gval.
 Variable ok : field -> gval -> bool.
@@ -68,7 +69,7 @@ Lemma fields_roundtrip : forall fs vs es pre,
   (forall f v j, In f fs -> m (f_ty f) v = Ok j -> ok f v = true -> u f j = Ok v) ->
   nodup_str (json_names fs) = true ->
   fields_m m fs vs = Ok es ->
-  fields_ok pol_none ok fs vs = true ->
+  fields_ok pol_none nm ok fs vs = true ->
   (forall k, In k (map fst pre) -> ~ In k (json_names fs)) ->
   mapM (dec_field (pre ++ es)) fs = Ok vs.
 Proof.
@@ -88,7 +89,10 @@ Proof.
       destruct (f_omit f && e) eqn:Hoe.
       * (* omitted *)
         apply andb_true_iff in Hoe. destruct Hoe as [_ ->].
-        rewrite orb_false_r in Hokf. apply negb_true_iff in Hokf.
+        assert (Hne : nonnil_empty v = false).
+        { destruct (nonnil_empty v); [|reflexivity]. simpl in Hokf.
+          destruct (lossy_field nm (f_go f)); discriminate Hokf. }
+        clear Hokf. rename Hne into Hokf.
         rewrite assoc_last_app_none.
         -- rewrite (Hzero2 _ _ He Hokf). simpl.
            rewrite (IH vs es pre Hmu' Hnd Hm Hokr); [reflexivity|].
@@ -113,7 +117,7 @@ Lemma struct_roundtrip : forall fs vs es,
   (forall f v j, In f fs -> m (f_ty f) v = Ok j -> ok f v = true -> u f j = Ok v) ->
   nodup_str (json_names fs) = true ->
   fields_m m fs vs = Ok es ->
-  fields_ok pol_none ok fs vs = true ->
+  fields_ok pol_none nm ok fs vs = true ->
   struct_u zero_of u fs es = Ok (GStruct vs).
 Proof.
   intros fs vs es Hmu Hnd Hm Hok. unfold struct_u.
@@ -144,7 +148,7 @@ Qed.
 (* serialisability of the fields *)
 Lemma fields_m_exists : forall p fs vs,
   (forall f v, In f fs -> ok f v = true -> exists j, m (f_ty f) v = Ok j) ->
-  fields_ok p ok fs vs = true -> exists es, fields_m m fs vs = Ok es.
+  fields_ok p nm ok fs vs = true -> exists es, fields_m m fs vs = Ok es.
 Proof.
   induction fs as [|f fs IH]; intros vs Hex Hok.
   - destruct vs; [exists []; reflexivity | discriminate].
@@ -289,10 +293,10 @@ Proof.
     apply andb_true_iff in Hsd. destruct Hsd as [Hnd _].
     assert (Hplain : forall (cf : field -> dctx) es,
               fields_m (marshal tb n) (sd_fields sd) l = Ok es ->
-              fields_ok pol_none (fun f v => okp tb pol_none n (cf f) (f_ty f) v) (sd_fields sd) l = true ->
+              fields_ok pol_none n0 (fun f v => okp tb pol_none n (cf f) (f_ty f) v) (sd_fields sd) l = true ->
               struct_u (zero tb n) (fun f jf => unmarshal tb n (cf f) (f_ty f) jf) (sd_fields sd) es = Ok (GStruct l)).
     { intros cf es Hes Hok.
-      apply (struct_roundtrip (marshal tb n) _ (fun f v => okp tb pol_none n (cf f) (f_ty f) v) (zero tb n)
+      apply (struct_roundtrip n0 (marshal tb n) _ (fun f v => okp tb pol_none n (cf f) (f_ty f) v) (zero tb n)
                (zero_is_zero tb n) (zero_of_empty tb n) (sd_fields sd) l es); [| exact Hnd | exact Hes | exact Hok].
       intros f v j' _ Hj' Hv. exact (IH _ _ _ _ Hj' Hv). }
     destruct (sd_marshal sd) eqn:Hsm; try discriminate Hm; destruct (sd_unmarshal sd) eqn:Hsu; try discriminate Hc.
@@ -365,10 +369,10 @@ Proof.
     + rewrite Hes. simpl. eauto.
   - destruct (lookup_sd tb n0) as [sd|]; [|discriminate].
     assert (Hplain : forall cf : field -> dctx,
-              fields_ok p (fun f v => okp tb p n (cf f) (f_ty f) v) (sd_fields sd) l = true ->
+              fields_ok p n0 (fun f v => okp tb p n (cf f) (f_ty f) v) (sd_fields sd) l = true ->
               exists j, bind (fields_m (marshal tb n) (sd_fields sd) l) (fun es => Ok (JObj es)) = Ok j).
     { intros cf Hok.
-      destruct (fields_m_exists (marshal tb n) (fun f v => okp tb p n (cf f) (f_ty f) v) p (sd_fields sd) l) as [es Hes];
+      destruct (fields_m_exists n0 (marshal tb n) (fun f v => okp tb p n (cf f) (f_ty f) v) p (sd_fields sd) l) as [es Hes];
         [| exact Hok |].
       - intros f v _ Hv. exact (IH _ _ _ Hv).
       - rewrite Hes. simpl. eauto. }
@@ -413,7 +417,7 @@ Qed.
 (* ---- the four known-finding classes are exactly the gap between "well-formed" and "clean" ------------------- *)
 Definition pmeet (p1 p2 : policy) : policy :=
   mkPolicy (p_number p1 && p_number p2) (p_anynum p1 && p_anynum p2) (p_empty p1 && p_empty p2)
-           (p_utf8 p1 && p_utf8 p2).
+           (p_empty_lossy p1 && p_empty_lossy p2) (p_utf8 p1 && p_utf8 p2).
 
 Lemma forallb_meet {A} (f1 f2 f3 : A -> bool) : forall l,
   (forall x, In x l -> f1 x = true -> f2 x = true -> f3 x = true) ->
@@ -424,9 +428,9 @@ Proof.
   apply andb_true_iff. split; [apply H; auto | apply IH; auto].
 Qed.
 
-Lemma fields_ok_meet (p1 p2 : policy) (ok1 ok2 ok3 : field -> gval -> bool) : forall fs vs,
+Lemma fields_ok_meet (p1 p2 : policy) (nm : string) (ok1 ok2 ok3 : field -> gval -> bool) : forall fs vs,
   (forall f v, ok1 f v = true -> ok2 f v = true -> ok3 f v = true) ->
-  fields_ok p1 ok1 fs vs = true -> fields_ok p2 ok2 fs vs = true -> fields_ok (pmeet p1 p2) ok3 fs vs = true.
+  fields_ok p1 nm ok1 fs vs = true -> fields_ok p2 nm ok2 fs vs = true -> fields_ok (pmeet p1 p2) nm ok3 fs vs = true.
 Proof.
   induction fs as [|f fs IH]; intros vs H H1 H2.
   - destruct vs; [reflexivity | discriminate].
@@ -437,7 +441,8 @@ Proof.
     destruct (f_skip f); [exact A1|].
     destruct (is_empty (f_ty f) v) as [e|]; [|discriminate].
     destruct (f_omit f && e); [|exact (H f v A1 A2)].
-    destruct (nonnil_empty v); simpl in *; [rewrite A1, A2; reflexivity | reflexivity].
+    destruct (nonnil_empty v); simpl in *; [|reflexivity].
+    destruct (lossy_field nm (f_go f)); rewrite A1, A2; reflexivity.
 Qed.
 
 Lemma str_ok_meet p1 p2 s : str_ok p1 s = true -> str_ok p2 s = true -> str_ok (pmeet p1 p2) s = true.
@@ -483,12 +488,12 @@ Proof.
     apply andb_true_iff. split; [apply str_ok_meet; auto | apply IH; auto].
   - destruct (lookup_sd tb n0) as [sd|]; [|discriminate].
     destruct (sd_marshal sd); try discriminate H1; destruct (sd_unmarshal sd); try discriminate H1.
-    + apply (fields_ok_meet p1 p2 _ _ _ _ _ (fun f v => IH _ _ _) H1 H2).
-    + apply (fields_ok_meet p1 p2 _ _ _ _ _ (fun f v => IH _ _ _) H1 H2).
-    + apply (fields_ok_meet p1 p2 _ _ _ _ _ (fun f v => IH _ _ _) H1 H2).
+    + apply (fields_ok_meet p1 p2 _ _ _ _ _ _ (fun f v => IH _ _ _) H1 H2).
+    + apply (fields_ok_meet p1 p2 _ _ _ _ _ _ (fun f v => IH _ _ _) H1 H2).
+    + apply (fields_ok_meet p1 p2 _ _ _ _ _ _ (fun f v => IH _ _ _) H1 H2).
     + destruct (bool_field (sd_fields sd) l "Never") as [[|]|]; try discriminate H1;
         destruct (bool_field (sd_fields sd) l "Always") as [[|]|]; try discriminate H1; try exact H1.
-      apply (fields_ok_meet p1 p2 _ _ _ _ _ (fun f v => IH _ _ _) H1 H2).
+      apply (fields_ok_meet p1 p2 _ _ _ _ _ _ (fun f v => IH _ _ _) H1 H2).
 Qed.
 
 Lemma okp_meet : forall n c t v,
